@@ -95,8 +95,12 @@ attribute [local irreducible] always onError prim getP modP fail
 theorem sound_enqueueBlock (b : Blk) : Sound (enqueueBlock v b) := by
   unfold enqueueBlock; sound_steps [hv, hv]
 
+theorem sound_writeDataBlock (b : Blk) : Sound (writeDataBlock v b) := by
+  unfold writeDataBlock; sound_steps [hv, hv]
+
 theorem sound_processCompletedBlock (b : Blk) : Sound (processCompletedBlock v b) := by
-  unfold processCompletedBlock; sound_steps [hv, hv]
+  have hw := sound_writeDataBlock hv
+  unfold processCompletedBlock; sound_steps [hv, hw]
 
 theorem sound_processCompletedFragment (b : Blk) : Sound (processCompletedFragment v b) := by
   have he := sound_enqueueBlock hv
@@ -130,7 +134,7 @@ theorem sound_addSentinel (fuel : Nat) : Sound (addSentinel v fuel) := by
   have he := sound_enqueueBlock hv
   unfold addSentinel; sound_steps [hv, hg, he]
 
-theorem sound_beginFile (i d : Bool) : Sound (beginFile v i d) := by
+theorem sound_beginFile (i d n b : Bool) : Sound (beginFile v i d n b) := by
   unfold beginFile; sound_steps [hv, hv]
 
 theorem sound_appendLoop (z d : Bool) (fuel size : Nat) : Sound (appendLoop v z d fuel size) := by
@@ -162,7 +166,7 @@ theorem sound_finish (fuel : Nat) : Sound (finish v fuel) := by
 
 theorem sound_call (fuel : Nat) (a : Api) : Sound (call v fuel a) := by
   cases a with
-  | beginFile i d => exact sound_beginFile hv i d
+  | beginFile i d n b => exact sound_beginFile hv i d n b
   | append n z d => exact sound_append hv n z d fuel
   | endFile => exact sound_endFile hv fuel
   | sync => exact sound_sync hv fuel
@@ -171,6 +175,10 @@ theorem sound_call (fuel : Nat) (a : Api) : Sound (call v fuel a) := by
 end
 
 theorem fixed_checked : ∀ p, checked Variant.fixed p = true := by
+  intro p; cases p <;> rfl
+
+/-- /repo as it is (fixes/C13-sparse-tail-result.patch is part of the source). -/
+theorem current_checked : ∀ p, checked Variant.current p = true := by
   intro p; cases p <;> rfl
 
 end Sqfs.FailStop.BP
